@@ -103,6 +103,8 @@ structure St where
   o : Option OSt := none
   /-- clause prefix enabled for this run ("" = all) -/
   only : String := ""
+  /-- (job id, absolute expiry in ns) of the jobs dispatched with a TTL in this case -/
+  expiry : List (Nat × Nat) := []
 
 def bracket? (ws : List String) (k : String) : Option (List String) := do
   let v ← kv ws k
@@ -163,13 +165,18 @@ def opEvents : Op → List Ev
   | _ => []
 
 /-- feed one step of the implementation's history to the oracle; returns the newly violated clauses -/
-def judge (st : St) (evs : List Ev) (te : Nat) : St × List String :=
+def judge (st : St) (evs : List Ev) (t0 te : Nat) : St × List String :=
   match st.o with
   | none => (st, [])
   | some o =>
     let n := o.bad.length
     let o' := evs.foldl oStep o
     let o' := if rlOk o'.info o'.startsTotal te then o' else o'.flag "c15-ratelimit-window"
+    -- C13 (time-dependent, judged here): a job whose TTL had run out before this step began is never handed to a
+    -- worker — both dequeue points (`get_next_non_expired_job`, the head loop of `try_route_next_active_job`) and
+    -- `dispatch` discard it as TtlExpired instead
+    let o' := if evs.any (fun | .start _ id _ => (st.expiry.find? (·.1 == id)).any (fun x => x.2 < t0) | _ => false)
+      then o'.flag "c13-expired-job-started" else o'
     let fresh := (o'.bad.drop n).filter (·.startsWith st.only)
     ({ st with o := some o' }, fresh.eraseDups)
 
@@ -193,7 +200,7 @@ def step (st : St) (op impl : String) : St × StepOut :=
         let st := { st with w := some w, o := some (oInit info) }
         match parseObs? impl with
         | some evs =>
-          let (st, bad) := judge st evs te
+          let (st, bad) := judge { st with expiry := [] } evs t0 te
           (st, { model := render w 0, oracle := bad })
         | none => (st, { model := render w 0, oracle := ["unparsable"] })
     | _ =>
@@ -215,9 +222,12 @@ def step (st : St) (op impl : String) : St × StepOut :=
         let nt := (w'.env.log.drop n).any fun
           | .discard .. => true | .build .. => true | .lost .. => true | .hook _ => true | _ => false
         let st := { st with w := some w' }
+        let st := match o with
+          | .dispatch id _ _ (some ttl) _ => { st with expiry := (id, t0 + ttl) :: st.expiry }
+          | _ => st
         match parseObs? impl with
         | some evs =>
-          let (st, bad) := judge st (opEvents o ++ evs) te
+          let (st, bad) := judge st (opEvents o ++ evs) t0 te
           (st, { model := m, oracle := bad, nontrivial := nt })
         | none => (st, { model := m, oracle := ["unparsable"], nontrivial := nt })
       | _, _ => (st, { model := "bad-op" })
